@@ -255,10 +255,12 @@ def run(ctx):
     ctx.cov["schedule_stats"] = stats
     ctx.cov["input_distribution"] = (
         "corpus/C03/*.aelys first; then seeded programs in 5 classes round-robin: plain (top-level string building in loops, "
-        "Array/Vec of strings, vec growth, pop), fnargs (recursion and loops in functions without heap constants), nested "
-        "(functions with string literals, nested 1 and 2 levels), closure (captured strings/counters/vectors, closures returned "
-        "and called), mixed; 4-17 random statements each; every program under schedules never(1:0), every safepoint(2:0), "
-        "every k-th (3:2,3:3,3:7), two pseudo-random (4:k); optimisation level 0; instruction budget 150000")
+        "Array/Vec of strings, vec growth, pop), fnargs (recursion building nested Vecs, loops in functions without heap "
+        "constants), nested (functions with string literals, nested 1 and 2 levels), closure (captured strings/counters/vectors, "
+        "closures returned, stored in a Vec and called, two-level closures; half of these programs have no heap constant inside "
+        "any function), mixed; every class nests containers (a Vec holding a Vec, an Array and strings; pushes through the "
+        "alias); 4-17 random statements each; every program under schedules never(1:0), every safepoint(2:0), every k-th "
+        "(3:2,3:3,3:7), two pseudo-random (4:k); optimisation level 0; instruction budget 150000")
     ctx.cov["rule"] = ("evaluations = collections audited by the direct oracle + program runs; distinct_nontrivial = distinct "
                        "(heap, roots) dumps evaluated by the Coq model + distinct programs. Oracle per collection: mark bits clear "
                        "before/after, survivors byte-identical (kind, digest, references), every object reachable from the roots "
